@@ -38,7 +38,7 @@ def run(ctx):
 
 
 def r1(ctx, F, hub):
-    b = F.body(LOCK)
+    b = F.body(hub.lock_fn)
     if b is None:
         ctx.missing('C03.R1', LOCK)
     fl = flow_of(b)
@@ -103,7 +103,7 @@ def r1(ctx, F, hub):
         ctx.missing('C03.R1', 'serve.rs: remove/rename sites (found %d)' % n_rm)
     # the lock file is one fixed name under the served root - the same for every server of this root, whatever the request
     # (labels: derived from the root only; a request-dependent part would give every path / spelling a lock of its own)
-    lb_ = F.body(LOCK)
+    lb_ = F.body(hub.lock_fn)
     lfl_ = flow_of(lb_)
     n_open = 0
     for ob, ot in lfl_.calls(lambda c: c.endswith('OpenOptions::open')):
